@@ -564,7 +564,7 @@ class Evaluator(object):
                 return None
             if op == '+':
                 return a + b
-            if op == '-':
+            if op in ('-', 'neg'):     # ('bin', 'neg', 0, e) is the unary minus spelling
                 return a - b
             if op == '*':
                 return a * b
